@@ -166,7 +166,7 @@ fn dynamic_external(depth: usize) -> ExtAcc {
     let kinds = vec![DynKind::Complete, DynKind::Stable, DynKind::Preferred, DynKind::CompleteAtt(1), DynKind::StableAtt(1)];
     let mut tasks: Vec<(DynKind, Vec<Op>)> = vec![];
     for &k in &kinds {
-        let alpha = Alphabet { n_labels: 2, kind: k, with_unknown_label: false, nocert_queries: false, max_queries: 2, queries_only: false, updates_then_query: false, nodes: std::cell::Cell::new(0) };
+        let alpha = Alphabet { n_labels: 2, kind: k, with_unknown_label: false, nocert_queries: false, max_queries: 2, queries_only: false, updates_then_query: false, tail: 0, nodes: std::cell::Cell::new(0) };
         alpha.for_each_history(&[], depth, 0, &mut |h| {
             if h.last().map(|o| o.is_query()).unwrap_or(false) && h.iter().filter(|o| o.is_query()).count() == 2 {
                 tasks.push((k, h.to_vec()));
